@@ -51,6 +51,8 @@ func (a *LabelFormatPlanner) Process(ctx *shared.PlannerContext,
 			for _, fn := range labelFns {
 				entry.Labels = fn(entry.Labels)
 			}
+			// the series identity follows the label set, as after the parser stage
+			entry.Fingerprint = fingerprint(entry.Labels)
 			return nil
 		},
 		OnAfterEntriesSlice: func(entries []shared.LogEntry, c chan []shared.LogEntry) error {
